@@ -16,6 +16,7 @@ import JPV.Impl.NonDet
 import JPV.Spec.NonDet
 import JPV.Spec.IRegexp
 import JPV.Impl.Regex
+import JPV.Impl.Graph
 namespace JPV.Driver
 open JPV.Wire
 
@@ -278,6 +279,33 @@ def handle (fields : List String) : String :=
       let r := if stage = "ok" then Impl.Cli.onSuccess else
         Impl.Cli.onException (if stage = "compile" then .compile else .evaluate) exc (debug = "1")
       s!"cli {r.exitCode} {r.stderrLines} {if r.traceback then 1 else 0} {if r.outputWritten then 1 else 0}"
+  | ["g.visit", max, root, heap] =>
+      -- heap: (heap (id (key child) (key child) ...) ...); key: an encoded string or an integer
+      let decKid : Sexp → Option (Key × Nat)
+        | .list [.atom k, .atom c] =>
+          (match c.toNat? with
+           | none => none
+           | some cn =>
+             (match k.toInt? with
+              | some i => some (.idx i, cn)
+              | none => (decStr k).map (fun s => (.name s, cn))))
+        | _ => none
+      let decEntry : Sexp → Option (Nat × List (Key × Nat))
+        | .list (.atom i :: kids) => do
+            let n ← i.toNat?
+            let ks ← kids.mapM decKid
+            pure (n, ks)
+        | _ => none
+      match max.toInt?, root.toNat?, readSexp heap with
+      | some mx, some r, some (.list (.atom "heap" :: es)) =>
+        match es.mapM decEntry with
+        | some tbl =>
+          let h : Impl.G.Heap := { kids := fun n => ((tbl.find? (fun e => e.1 = n)).map (·.2)).getD [] }
+          let out := Impl.G.visitTop h mx r
+          "visited\t" ++ " ".intercalate (out.1.map (fun p => encLoc p.1 ++ "@" ++ toString p.2)) ++ "\t" ++
+            (match out.2 with | none => "end" | some e => "err " ++ encErr e)
+        | none => "bad-request"
+      | _, _, _ => "bad-request"
   | ["nd.find", env, q, doc, script] =>
       match (readSexp env).bind decEnv, (readSexp q).bind decQuery, decJsonAll doc, (readSexp script).bind decScript with
       | some e, some q, some d, some sc =>
